@@ -16,6 +16,8 @@ package main
 //   kchpub OLD NEW                 KeystoreManager.ChangePubPassphrase             ok | err:<class>
 //   kchpriv W OLD NEW              ChangePrivPassphrase                            err:<class> (version 0 forbids it)
 //   ksignhash W A PASS             WalletManager.SignHash with the key of A        ok | err:pass | ...
+//   kssign W A PASS                KeystoreManager.SignHash (keystore level: stays unlocked)  ok | err:pass | ...
+//   ksclear                        KeystoreManager.ClearPrivKey                    ok
 //   krestart PUB                   reopen database + new WalletManager with PUB    ok | err:pub
 //   kdecrypt W PASS                harness decrypts the stored blobs itself        ok | err:pass
 //   kstate                         volatile unlock state of every keystore (hook VerifSecState)
@@ -205,6 +207,11 @@ func (x *secExec) Exec(a []string) string {
 		return x.chpriv(a[1], a[2], a[3])
 	case a[0] == "ksignhash" && len(a) == 4:
 		return x.signHash(a[1], a[2], a[3])
+	case a[0] == "kssign" && len(a) == 4:
+		return x.ksSign(a[1], a[2], a[3])
+	case a[0] == "ksclear" && len(a) == 1:
+		x.e.wm.VerifKeystoreManager().ClearPrivKey()
+		return "ok"
 	case a[0] == "kdecrypt" && len(a) == 3:
 		return x.decrypt(a[1], a[2])
 	case a[0] == "kstate" && len(a) == 1:
@@ -480,6 +487,34 @@ func (x *secExec) signHash(w, a, passHex string) string {
 		return secErrClass(err)
 	}
 	sig, err := x.e.wm.SignHash(ma.PubKey(), secSignHashMsg[:], []byte(p))
+	if err != nil {
+		x.note(err)
+		if sig != nil {
+			return secErrClass(err) + "!returned-data"
+		}
+		return secErrClass(err)
+	}
+	if !sig.Verify(secSignHashMsg[:], ma.PubKey()) {
+		return "ok!bad-signature"
+	}
+	return "ok"
+}
+
+// ksSign: KeystoreManager.SignHash – the keystore-level entry point: it unlocks the address manager and
+// leaves it unlocked (the callers in package masswallet clear afterwards).
+func (x *secExec) ksSign(w, a, passHex string) string {
+	p, ok := passTok(passHex)
+	ai, ok2 := x.e.addrs[a]
+	if !ok || !ok2 || ai.wallet != w {
+		return "bad-op"
+	}
+	km := x.e.wm.VerifKeystoreManager()
+	ma, err := km.GetManagedAddressByStdAddress(ai.stdEnc)
+	if err != nil {
+		x.note(err)
+		return secErrClass(err)
+	}
+	sig, err := km.SignHash(ma.PubKey(), secSignHashMsg[:], []byte(p))
 	if err != nil {
 		x.note(err)
 		if sig != nil {
@@ -911,7 +946,11 @@ func (x *secExec) scan() string {
 	for _, n := range x.allNeedles() {
 		for _, h := range hs {
 			if bytes.Contains(h.b, n.b) {
-				return "LEAK:" + n.what + "@" + h.where
+				where := h.where
+				for id, name := range x.e.walletRev { // symbolic names only
+					where = strings.ReplaceAll(where, id, name)
+				}
+				return "LEAK:" + n.what + "@" + where
 			}
 		}
 	}
